@@ -202,7 +202,13 @@ class TracebackContent(Content):
         content_type = ContentType(
             "text", "x-traceback", {"language": "python", "charset": "utf8"}
         )
-        super().__init__(content_type, lambda: [x.encode("utf8") for x in stack_lines])
+        # An exception message may hold lone surrogates (an os.fsdecode()d
+        # file name, say), which strict UTF-8 cannot encode: show them escaped
+        # rather than fail while the outcome is being reported.
+        super().__init__(
+            content_type,
+            lambda: [x.encode("utf8", "backslashreplace") for x in stack_lines],
+        )
 
 
 def StacktraceContent(prefix_content="", postfix_content=""):
